@@ -766,6 +766,67 @@ Proof.
   apply set_mc_eqv. apply (fl_at F' F HF r c Hin).
 Qed.
 
+(* ------------------------------------------------------------------ cbca aggregation, left and right cost volumes
+   (through Proofs/LocalFlipCbcaP.v: C11's plane theorem, the spec read upside down, the 3x3 median pre-filter) *)
+
+From Pandora Require Model.Cbca Proofs.CbcaP Proofs.LocalCbcaP Proofs.LocalFlipCbcaP.
+
+Section CbcaFlip.
+  Variables (dist : Z) (inten : Q) (G : cfg).
+  Hypothesis Hwf : cfg_wf G.
+  Hypothesis Hdist : 1 <= dist.
+  Variables (F' F : frame pix) (r c : Z).
+  Hypothesis HF : flipped pix_eqv F' F.
+  Hypothesis Hin : in_frame F r c.
+
+  Lemma cbca_left_flip : forall k, 0 <= k < n_disp G ->
+    cbca_at (cbca_left dist inten G F') k r c = cbca_at (cbca_left dist inten G F) k (frow F r) c.
+  Proof.
+    intros k Hk. pose proof (fl_nr F' F HF) as En. pose proof (fl_nc F' F HF) as Ec. pose proof (h0 G Hwf) as Hh.
+    destruct Hwf as (Hw & Ho & Hs & Hdd). destruct Hin as [Hr Hc].
+    assert (Hn : 0 <= n_disp G) by (unfold n_disp, MatchingCost.nb_disp; nia).
+    change (cbca_at (cbca_left dist inten G F') k r c) with (CbcaP.out_at (cbca_left dist inten G F') k r c).
+    change (cbca_at (cbca_left dist inten G F) k (frow F r) c) with (CbcaP.out_at (cbca_left dist inten G F) k (frow F r) c).
+    change (frow F r) with (Cbca.i_nr (cbca_left dist inten G F) - 1 - r).
+    assert (Hat : forall a b, 0 <= a < f_nr F -> 0 <= b < f_nc F -> pix_eqv (f_at F' a b) (f_at F (f_nr F - 1 - a) b)).
+    { intros a b Ha Hb. apply (fl_at F' F HF a b). split; assumption. }
+    apply LocalFlipCbcaP.cbca_model_flip.
+    - unfold cbca_left. cbn. rewrite En, Ec. repeat split; reflexivity.
+    - exact Hdist.
+    - unfold cbca_left. cbn [Cbca.i_subpix]. lia.
+    - unfold cbca_left. cbn [Cbca.i_off]. exact Hh.
+    - intros a b Ha Hb. unfold cbca_left in *. cbn in *. pose proof (Hat a b Ha Hb) as Hp. split.
+      + unfold qimg, fld. rewrite (eqv_L _ _ Hp). reflexivity.
+      + destruct (g_hasL G); cbn [omask LocalCbcaP.omask_agree]; [unfold fld; apply (eqv_mL _ _ Hp)|exact I].
+    - intros s a b Ha Hb. unfold cbca_left in *. cbn [Cbca.i_imR Cbca.i_nr Cbca.i_nc Cbca.ncR_full] in *.
+      unfold Cbca.ncR_full in Hb. cbn [Cbca.i_nc] in Hb.
+      unfold shifted, MatchingCost.shift_right, fld.
+      destruct (s =? 0) eqn:Es.
+      + rewrite (eqv_R _ _ (Hat a b Ha ltac:(lia))). reflexivity.
+      + rewrite (eqv_R _ _ (Hat a b Ha ltac:(lia))), (eqv_R _ _ (Hat a (b + 1) Ha ltac:(lia))). reflexivity.
+    - intros a b Ha Hb. unfold cbca_left in *. cbn in *. pose proof (Hat a b Ha Hb) as Hp.
+      destruct (g_hasR G); cbn [omask LocalCbcaP.omask_agree]; [unfold fld; apply (eqv_mR _ _ Hp)|exact I].
+    - intros k0 a b Ha Hb. unfold cbca_left in *. cbn in *. unfold cv_at. rewrite (eqv_cvL _ _ (Hat a b Ha Hb)). reflexivity.
+    - unfold CbcaP.n_disp, cbca_left. cbn [Cbca.i_disps]. rewrite disps_length by assumption. exact Hk.
+    - unfold cbca_left. cbn [Cbca.i_nr]. exact Hr.
+    - unfold cbca_left. cbn [Cbca.i_nc]. exact Hc.
+  Qed.
+End CbcaFlip.
+
+Theorem cbca_step_flip : forall dist inten G, cfg_wf G -> 1 <= dist -> flip_ok pix_eqv (cbca_step dist inten G).
+Proof.
+  intros dist inten G Hwf Hdist F' F HF r c Hin.
+  pose proof (cfg_wf_swap G Hwf) as Hwf'. pose proof (flipped_swap F' F HF) as HFs.
+  unfold cbca_step.
+  rewrite (map_ext_in _ (fun k => cbca_at (cbca_left dist inten G F) k (frow F r) c) (MatchingCost.zrange 0 (n_disp G))).
+  2:{ intros k Hk. apply MatchingCostP.zrange_In in Hk. apply cbca_left_flip; try assumption. lia. }
+  rewrite (map_ext_in (fun k => cbca_at (cbca_right dist inten G F') k r c)
+             (fun k => cbca_at (cbca_right dist inten G F) k (frow F r) c) (MatchingCost.zrange 0 (n_disp G))).
+  2:{ intros k Hk. apply MatchingCostP.zrange_In in Hk. rewrite !cbca_right_swap.
+      change (frow F r) with (frow (swapf F) r). apply cbca_left_flip; try assumption. rewrite n_disp_swap. lia. }
+  apply set_cv_eqv. apply (fl_at F' F HF r c Hin).
+Qed.
+
 (* ------------------------------------------------------------------ pipelines *)
 
 Lemma flip_ok_all_sizes : forall A (E : A -> A -> Prop) (f : op A A) nr nc, flip_ok E f -> flip_ok_at nr nc E f.
@@ -794,7 +855,7 @@ Qed.
 Definition step_flip_wf (V : env) (nr nc : Z) (s : step) : Prop :=
   match s with
   | SMc m => meas_wf (e_cfg V) m /\ bord_sym (e_flags V)
-  | SCbca dist _ => False     (* cbca: not proved here *)
+  | SCbca dist _ => 1 <= dist
   | SMedian w => 0 < w /\ Z.odd w = true
   | SBilateral sigma sk rk => bil_flip_ok nr nc sigma sk rk
   | _ => True
@@ -804,7 +865,7 @@ Lemma step_flip : forall V nr nc s, env_wf V -> step_flip_wf V nr nc s -> flip_o
 Proof.
   intros V nr nc s (Hc & Hb1 & Hb2 & Hb3) Hs. destruct s; cbn [step_op step_flip_wf] in *.
   - destruct Hs as [Hm Hsym]. apply flip_ok_all_sizes. apply mc_step_flip; assumption.
-  - contradiction.
+  - apply flip_ok_all_sizes. apply cbca_step_flip; assumption.
   - apply flip_ok_all_sizes. apply wta_step_flip; assumption.
   - apply flip_ok_all_sizes. apply refine_step_flip.
   - destruct Hs as [Hw Ho]. apply flip_ok_all_sizes. apply median_step_flip; assumption.
